@@ -102,22 +102,24 @@ BASE_PROFILE = {
     "radii_list_p": 0.3,
     "far_p": 0.08,
     "dim2d_p": 0.0,            # camera worlds: 2D detection / tracking on image ROIs
+    "sticky_label_p": 0.3,     # a misclassified track stays misclassified (classifier state kept per track)
+    "idless_p": 0.03,          # tracking evaluated on a detector's output: no estimate carries an id
 }
 
 PROFILES = {
     "generic": {"dim2d_p": 0.15},
     "clean": {"clean_p": 1.0},
-    "c13": {"dim2d_p": 0.12, 
+    "c13": {"dim2d_p": 0.12, "idless_p": 0.12, 
         "force": ["dup", "reeval", "scene_query", "crit_change", "dup_detection", "id_dup", "id_none"],
         "enable_p": 0.3,
         "narrow_crit_p": 0.6,
         "max_samples": 10,
         "interp_p": 0.4,
     },
-    "c05": {"dim2d_p": 0.2, 
+    "c05": {"dim2d_p": 0.2, "idless_p": 0.05, "sticky_label_p": 0.5, 
         "tasks": {"tracking": 1},
         "clean_p": 0.3,
-        "force": ["id_new", "id_swap", "id_steal", "label_alias", "miss"],
+        "force": ["id_new", "id_swap", "id_steal", "label_alias", "miss", "label_unknown"],
         "merge_p": 0.45,
         "fault_pool": ["miss", "ghost", "label_flip", "label_unknown", "label_alias", "pose_noise", "id_new", "id_swap", "id_dup", "id_steal", "drop",
                        "reorder", "scene_query", "dup_detection"],
@@ -776,6 +778,9 @@ def make_plan(seed, run, profile_name, clean=None, force=None):
     next_fresh = [0]
     near_tie_carry = [None]
     seen_prev = set()
+    sticky = rng.random() < prof["sticky_label_p"]
+    idless = tracking and rng.random() < prof["idless_p"]
+    label_state = {}
 
     def fresh_id():
         next_fresh[0] += 1
@@ -899,14 +904,22 @@ def make_plan(seed, run, profile_name, clean=None, force=None):
                 lab = rng.choice(est_pool)
             elif merge:
                 lab = MERGE.get(lab, lab)
+            lkey = track_id[ai] if tracking else ai      # the class opinion belongs to the track: it moves with a drifting id
+            if lkey in label_state:
+                lab = label_state[lkey]        # the classifier keeps its earlier (wrong) opinion about this track
+                f.append("label_sticky")
             if fire("label_flip"):
                 lab = rng.choice([l for l in est_pool if l != lab])
                 f.append("label_flip")
                 note("label_flip")
+                if sticky:
+                    label_state[lkey] = lab
             if fire("label_unknown"):
                 lab = "unknown"
                 f.append("label_unknown")
                 note("label_unknown")
+                if sticky:
+                    label_state[lkey] = lab
             if fire("label_alias"):
                 al = list(ALIASES.get(lab, [])) + (list(ALIASES_MERGED.get(lab, [])) if merge else [])
                 if al:
@@ -927,6 +940,8 @@ def make_plan(seed, run, profile_name, clean=None, force=None):
                 o["attrs"] = list(a.get("attrs", [])) or [rng.choice(ATTRS)]
             if rng.random() < 0.3 and not dim2:
                 o["vel"] = [_r(rng.uniform(-10, 10), 2), _r(rng.uniform(-3, 3), 2), 0.0]
+            if idless:
+                o["uuid"] = None
             if tracking and fire("id_none"):
                 o["uuid"] = None          # a tracker output without an id
                 o["faults"].append("id_none")
@@ -968,7 +983,9 @@ def make_plan(seed, run, profile_name, clean=None, force=None):
                     d["size"] = [round(max(0.05, v * rng.uniform(0.5, 1.6)), 3) for v in d["size"]]
                 d["conf"] = _r(min(0.999999, max(0.000001, conf - rng.uniform(0.01, 0.2))), 6)
                 d["faults"] = f + ["dup_detection"]
-                if tracking and not fire("id_dup"):
+                if idless:
+                    pass
+                elif tracking and not fire("id_dup"):
                     d["uuid"] = fresh_id()
                 elif tracking:
                     d["faults"].append("id_dup")
@@ -995,7 +1012,7 @@ def make_plan(seed, run, profile_name, clean=None, force=None):
                     "label": gl,
                     **ggeom,
                     "conf": _r(rng.uniform(0.01, 0.99), 6),
-                    "uuid": fresh_id() if tracking else None,
+                    "uuid": fresh_id() if (tracking and not idless) else None,
                     "faults": ["ghost"],
                 }
             )
